@@ -42,8 +42,25 @@ def subst_op(x, consts):
 def substitute(items):
     consts = ir.eval_consts(items)
     out = []
+    # %offset(K) / a bare constant as jump target has no literal spelling (the modifier takes a NAME): those constants stay, with
+    # their value written as a plain integer
+    keep = set()
+
+    def offc_names(v):
+        if isinstance(v, ir.OffC):
+            keep.add(v.name)
+        for attr in ('a', 'b', 'v', 'base'):
+            x = getattr(v, attr, None)
+            if isinstance(x, ir.V):
+                offc_names(x)
+    for it in items:
+        for v in (list(it.ops.values()) if it.kind == 'insn' else list(it.ops) if it.kind == 'pseudo' else [it.value] if it.kind in ('short', 'pack') else []):
+            if isinstance(v, ir.V):
+                offc_names(v)
     for it in items:
         if it.kind == 'const':
+            if it.name in keep:
+                out.append(ir.ConstDef(it.name, value=ir.Lit(consts[it.name])))
             continue
         if it.kind == 'insn':
             out.append(ir.Insn(it.mn, {k: subst_op(v, consts) for k, v in it.ops.items()}, it.baseoff))
